@@ -1,0 +1,12 @@
+//go:build verif
+// +build verif
+
+package lime
+
+// ResetInProcessListenersForVerif forgets every registered in-process
+// listener. The registry is process-global; a model-checking harness that runs
+// many executions in one process calls this between executions. It exists only
+// in verification builds.
+func ResetInProcessListenersForVerif() {
+	inProcListeners = make(map[InProcessAddr]*inProcessTransportListener)
+}
